@@ -176,6 +176,7 @@ type prover struct {
 
 type boundsEngine struct {
 	lemmaBudget int
+	goalBlock   *ssa.BasicBlock // where the goal being proved is needed (for edge feasibility of joins, thread.go)
 	c           *Ctx
 	writers     map[string]map[*ssa.Function]bool
 	typeInv     map[string]int64
@@ -462,8 +463,30 @@ func (p *prover) cleanBetween(a, b ssa.Instruction, path string, load *ssa.UnOp)
 			return false
 		}
 	}
+	dirty := false
 	for blk := range fwd {
 		if blk == bb || blk == ba || !bwd[blk] {
+			continue
+		}
+		if !scan(blk, 0, len(blk.Instrs)) {
+			dirty = true
+			break
+		}
+	}
+	if !dirty {
+		return true
+	}
+	if ba == bb {
+		return false
+	}
+	// a write lies between a and b in the block graph: look again at the feasible paths only (a join whose φ is
+	// tested right away lets the block graph connect a branch with the continuation of the other one, see thread.go)
+	region := feasibleRegion(ba, bb)
+	if region[bb] && !scan(bb, 0, len(bb.Instrs)) {
+		return false
+	}
+	for blk := range region {
+		if blk == bb || blk == ba {
 			continue
 		}
 		if !scan(blk, 0, len(blk.Instrs)) {
@@ -1052,7 +1075,9 @@ func (be *boundsEngine) proveGoal(p *prover, g ineq, b *ssa.BasicBlock, hyps []i
 	if depth >= 3 {
 		return false, ""
 	}
+	be.goalBlock = b
 	lemmas := be.phiLemmas(p, g, facts, depth)
+	be.goalBlock = b
 	if len(lemmas) > 0 {
 		all = append(append(append([]ineq{}, facts...), lemmas...), p.axioms...)
 		if entails(all, g) {
@@ -1152,8 +1177,12 @@ func (be *boundsEngine) inductLemma(p *prover, phi *ssa.Phi, atom string, isLen 
 		return false
 	}
 	base := false
+	goalBlock := be.goalBlock
 	for i, e := range phi.Edges {
 		pred := phi.Block().Preds[i]
+		if goalBlock != nil && phiEdgeInfeasible(phi, i, goalBlock) {
+			continue // the tests that hold where the goal is needed exclude this way into the join
+		}
 		var sub lin
 		if isLen {
 			sub = p.lenOf(e, 0)
@@ -1174,6 +1203,7 @@ func (be *boundsEngine) inductLemma(p *prover, phi *ssa.Phi, atom string, isLen 
 			base = true
 		}
 		ok, _ := be.proveGoal(p, ineq{ge, lemma.why}, pred, hyps, depth+1)
+		be.goalBlock = goalBlock
 		if !ok {
 			return false
 		}
@@ -1297,6 +1327,7 @@ func (be *boundsEngine) proveGoalWith(p *prover, g ineq, facts []ineq) (bool, st
 	if entails(all, g) {
 		return true, ""
 	}
+	be.goalBlock = nil
 	lemmas := be.phiLemmas(p, g, facts, 1)
 	all = append(append(append([]ineq{}, facts...), lemmas...), p.axioms...)
 	if entails(all, g) {
